@@ -67,6 +67,47 @@ def case_parse(ctx, string, aliases, expected=None, feats=(), dup=False):
         ctx.case("dtype.parse.error_class", {"string": string}, real, None, {"err": "TypeError"}, features=feats, spec_ok=False)
 
 
+
+def case_pickle_other_process(ctx):
+    """a dtype (alone, in an array, in a Series, in a frame) pickled by ANOTHER interpreter process — its own
+    string-hash seed — is the same description here: equal to the dtype built here, the same hash, one set element"""
+    import os, subprocess, sys
+    from .common import REPO
+    rng = ctx.rng
+    fields = [["t", "timestamp[ns]"], ["flux", "double"], ["band", "string"], ["ok", "bool"], ["k", "int64"]]
+    rng.shuffle(fields)
+    fields = fields[:rng.randint(1, 4)]
+    code = (
+        "import pickle, sys, pyarrow as pa, pandas as pd\n"
+        "from nested_pandas import NestedDtype, NestedFrame\n"
+        "from nested_pandas.series.ext_array import NestedExtensionArray\n"
+        f"fs = {fields!r}\n"
+        "d = NestedDtype.from_fields({n: pa.type_for_alias(t) if not t.startswith('timestamp') else pa.timestamp('ns') for n, t in fs})\n"
+        "arr = NestedExtensionArray(pa.array([{n: [] for n, _ in fs}], type=d.pyarrow_dtype))\n"
+        "ser = pd.Series(arr, name='c')\n"
+        "hash(d)\n"
+        "sys.stdout.buffer.write(pickle.dumps({'dtype': d, 'array': arr, 'series': ser, 'frame': NestedFrame({'c': ser})}))\n")
+    env = dict(os.environ, PYTHONPATH=os.path.join(REPO, "src"), PYTHONHASHSEED=str(rng.randint(1, 10 ** 6)))
+    r = subprocess.run([sys.executable, "-W", "ignore", "-c", code], env=env, capture_output=True)
+    if r.returncode != 0:
+        ctx.case("dtype.pickle_other_process", {"fields": fields}, {"err": "writer failed", "msg": r.stderr.decode()[-300:]}, None,
+                 {"ok": True}, features=("other_process",))
+        return
+    here = NestedDtype.from_fields({n: (pa.timestamp("ns") if t.startswith("timestamp") else pa.type_for_alias(t)) for n, t in fields})
+
+    def probe():
+        got = pickle.loads(r.stdout)
+        out = {}
+        for k, d in (("dtype", got["dtype"]), ("array", got["array"].dtype), ("series", got["series"].dtype),
+                     ("frame", got["frame"]["c"].dtype)):
+            out[k] = {"eq": d == here, "hash": hash(d) == hash(here), "one_set_element": len({d, here}) == 1,
+                      "dict_key": {here: 1}.get(d) == 1, "name": d.name == here.name}
+        return out
+    want = {k: {"eq": True, "hash": True, "one_set_element": True, "dict_key": True, "name": True}
+            for k in ("dtype", "array", "series", "frame")}
+    ctx.case("dtype.pickle_other_process", {"fields": fields}, call_real(probe), None, {"ok": want}, features=("other_process",))
+
+
 def run_all(ctx):
     rng = ctx.rng
     cat = alias_catalogue()
